@@ -15,6 +15,10 @@ By-path operations depend on the client's emulated working directory: the sessio
 the same file name exists with different contents in /, /sub and /sub/deep on the served and the twin side; the
 path each SETSTAT carries (and its canonical form) is compared with the model's _adjust_cwd, and all three copies
 are compared with their twins (an operation that lands on a same-named file elsewhere is `acts-on-wrong-file`).
+Open-handle programs: SFTPFile opened r+/w/w+/a/a+ with bufsize -1/0/1/2/16/4096/70000, writes left pending in the
+write buffer, then truncate/chmod/chown/utime on the handle, more writes, close.  Oracle: the served file equals what
+a LOCAL file object gives for the same program; correspondence: the requests on the wire (WRITE offset/len before or
+after FSETSTAT) and the final file vs the model (lean/PV/Model/HandleProg.lean).
 Oracle (model-independent): a real session against tests._stub_sftp.StubSFTPServer; every operation is applied
 to the served file through SFTPClient (by path) or SFTPFile (by open handle) and to a twin file with
 os.chmod/os.chown/os.utime/os.truncate; contents, mode, owner, size (and integer times for utime) must be equal.
@@ -131,6 +135,150 @@ def show(snap):
     c = d.pop("content")
     d["content"] = (c[:24].hex() + ("…" if len(c) > 24 else "")) + " (%d bytes)" % len(c)
     return d
+
+
+def handle_programs(ctx, lib, rng, A, n_prog, is_root):
+    """Attribute operations on an OPEN SFTPFile: open mode (r+, w, w+, a, a+) x bufsize x writes pending in the buffer
+    before the operation (and more writes after it), then close.  Oracle: the served file equals what a LOCAL file
+    object gives for the same program (open(mode) + write + truncate/os.chmod/... + close).  Correspondence: the
+    requests the client put on the wire (WRITE offset/len, FSETSTAT size / other) and the final file vs the model."""
+    from paramiko.sftp import CMD_FSETSTAT, CMD_WRITE
+
+    root, twin_root = tempfile.mkdtemp(prefix="pv-c31-hsrv-"), tempfile.mkdtemp(prefix="pv-c31-htwin-")
+    reqs, meta = [], []
+    try:
+        with lib.Session(root=root) as s:
+            client = s.client
+            events = []
+            orig = client._request
+
+            def rec(t, *args):
+                if t == CMD_WRITE:
+                    events.append("W:%d:%d" % (int(args[1]), len(args[2])))
+                elif t == CMD_FSETSTAT:
+                    a = args[1]
+                    events.append("T:%d" % a.st_size if a.st_size is not None else "A")
+                return orig(t, *args)
+
+            client._request = rec
+            for j in range(n_prog):
+                size0 = rng.choice([0, 1, 8, 8, 100, 1500, rng.randrange(0, 3000)])
+                content0 = rng.randbytes(size0)
+                mode = rng.choice(["r+", "w", "w+", "a", "a", "a+", "a+", "r+b", "ab"])
+                bufsize = rng.choice([-1, 0, 1, 2, 16, 4096, 4096, 70000])
+                if j == 0:  # the seeded-change shape: append, buffered, pending data, extend past it
+                    content0, mode, bufsize = b"AAAAAAAA", "a", 4096
+                append = "a" in mode
+                base = b"" if "w" in mode else content0
+                chunk = lambda: rng.randbytes(rng.choice([0, 1, 4, 4, 10, 100, 2000]))  # noqa: E731
+                ops = [("w", chunk()) for _ in range(rng.randrange(0, 4))]
+                pending_end = (len(base) if append else 0) + sum(len(d) for _, d in ops)
+                kind = rng.choice(["truncate", "truncate", "truncate", "chmod", "utime", "chown"])
+                if kind == "truncate":
+                    n = rng.choice([0, len(base), pending_end, pending_end + 4, pending_end + 3000, max(pending_end - 2, 0),
+                                    len(base) // 2, rng.randrange(0, pending_end + 10)])
+                    mid = ("t", n)
+                elif kind == "chmod":
+                    mid = ("chmod", rng.choice([0o600, 0o644, 0o4755, 0o640, 0o1777]) | 0o600)
+                elif kind == "utime":
+                    mid = ("utime", (rng.randrange(1 << 31), rng.randrange(1 << 31)))
+                else:
+                    mid = ("chown", (rng.randrange(1 << 16), rng.randrange(1 << 16)) if is_root
+                           else (os.geteuid(), os.getegid()))
+                if j == 0:
+                    ops, mid = [("w", b"bbbb")], ("t", 16)
+                ops = ops + [mid] + [("w", chunk()) for _ in range(rng.randrange(0, 3))]
+                if rng.random() < 0.3:
+                    ops.append(("t", rng.randrange(0, pending_end + 3000)))
+                name = "p%d" % j
+                served, twin = os.path.join(root, name), os.path.join(twin_root, name)
+                for p_ in (served, twin):
+                    with open(p_, "wb") as f:
+                        f.write(content0)
+                    os.chmod(p_, 0o644)
+                case = {"initial": "%d bytes" % len(content0) if len(content0) > 16 else content0.hex(), "open_mode": mode,
+                        "bufsize": bufsize, "initial_size": len(content0),
+                        "ops": [[k, len(v) if k == "w" else list(v) if isinstance(v, tuple) else v] for k, v in ops],
+                        "program": [("write %s" % (v.hex() if len(v) <= 8 else "%d bytes" % len(v)) if k == "w" else
+                                     "truncate(%d)" % v if k == "t" else "%s%r" % (k, v)) for k, v in ops] + ["close"]}
+                # --- through an open SFTPFile
+                del events[:]
+                err = None
+                try:
+                    fh = client.open("/" + name, mode, bufsize)
+                    del events[:]
+                    try:
+                        for k, v in ops:
+                            if k == "w":
+                                fh.write(v)
+                            elif k == "t":
+                                fh.truncate(v)
+                            elif k == "chmod":
+                                fh.chmod(v)
+                            elif k == "utime":
+                                fh.utime(v)
+                            else:
+                                fh.chown(*v)
+                    finally:
+                        fh.close()
+                except IOError as e:
+                    if isinstance(e, TimeoutError):
+                        raise InfraError("SFTP request timed out")
+                    err = "%s: %s" % (type(e).__name__, e)
+                trace = list(events)
+                # --- the same program on a local file object
+                lmode = {"r+": "r+b", "r+b": "r+b", "w": "wb", "w+": "w+b", "a": "ab", "ab": "ab", "a+": "a+b"}[mode]
+                with open(twin, lmode) as g:
+                    for k, v in ops:
+                        if k == "w":
+                            g.write(v)
+                        elif k == "t":
+                            g.truncate(v)
+                        elif k == "chmod":
+                            os.chmod(twin, v)
+                        elif k == "utime":
+                            os.utime(twin, v)
+                        else:
+                            os.chown(twin, *v)
+                got, want = snapshot(served, False), snapshot(twin, False)
+                pending = any(k == "w" and v for k, v in ops[:ops.index(mid)]) and bufsize > 1
+                ctx.case(("handle-program", mode, bufsize, tuple((k, len(v) if k == "w" else v) for k, v in ops)), True)
+                ctx.dist("handle-program:%s:%s:%s" % ("append" if append else "plain",
+                                                       "buffered" if bufsize > 1 else "line" if bufsize == 1 else "unbuffered",
+                                                       kind))
+                if pending and append and kind == "truncate":
+                    ctx.dist("handle-program:append+pending+truncate")
+                if err is not None:
+                    ctx.fail("handle-program-raises", case, err)
+                else:
+                    k_ = first_diff(want, got)
+                    if k_ is not None:
+                        culprit = "truncate" if any(k == "t" for k, _ in ops) else kind
+                        ctx.fail("handle-%s-vs-buffered-writes:%s" % (culprit, "append" if append else "plain"), case,
+                                 "%s differs: served %r, local file object %r" % (k_, show(got), show(want)))
+                # --- model: requests on the wire and the final file (line buffering and multi-request flushes excluded)
+                total = sum(len(v) for k, v in ops if k == "w")
+                if bufsize != 1 and total <= 30000 and err is None:
+                    toks = ["w:" + hx(v) if k == "w" else "t:%d" % v if k == "t" else "a" for k, v in ops] + ["c"]
+                    reqs.append("prog %d %d %s %d %s" % (1 if append else 0, max(bufsize, 0), hx(base),
+                                                         len(base) if append else 0, " ".join(toks)))
+                    meta.append((case, "%s | %s | 0" % (" ".join(trace) or "-", hx(got["content"]))))
+                for p_ in (served, twin):
+                    try:
+                        os.remove(p_)
+                    except OSError:
+                        pass
+    except lib.SessionError as e:
+        raise InfraError("sftp loopback session: %s" % e)
+    finally:
+        shutil.rmtree(root, ignore_errors=True)
+        shutil.rmtree(twin_root, ignore_errors=True)
+    model = ctx.driver("C31", reqs)
+    if model is not None:
+        for (case, impl), got in zip(meta, model):
+            ctx.dist("handle-program-vs-model")
+            if got != impl:
+                ctx.disagree("open-handle program: requests on the wire | served file", case, got[:300], impl[:300])
 
 
 def run(ctx):
@@ -407,6 +555,8 @@ def run(ctx):
         shutil.rmtree(root, ignore_errors=True)
         shutil.rmtree(twin_root, ignore_errors=True)
 
+    handle_programs(ctx, lib, rng, A, 1500 if ctx.thorough else 260, is_root)
+
     m3 = ctx.driver("C31", path_reqs)
     if m3 is not None:
         for (case, impl), got in zip(path_meta, m3):
@@ -431,7 +581,10 @@ META = {
               "exactly the one matching OS call with exactly the client's arguments (client_op_calls); each of the four "
               "by-path operations alike names _adjust_cwd(cwd, path) (by_path_request, adjust_absolute/none/relative) and "
               "a plain name under a canonical working directory resolves on the server to cwd/name "
-              "(relative_name_resolves_under_cwd, composed with the C34 model); hence the file "
+              "(relative_name_resolves_under_cwd, composed with the C34 model); for an open handle with write buffering, any "
+              "open mode/buffer size/program of writes, truncates and other attribute calls, the served file after the "
+              "pending data is written equals the local file object's (handle_program_local_meaning, close_settles) and "
+              "truncate acts on the file including everything written so far, WRITE before FSETSTAT (handle_truncate); hence the file "
               "state afterwards is that of the corresponding os call whatever the OS does (client_op_effect); for "
               "every attribute block (any combination of groups, any bytes) the server never passes None to an OS "
               "call (server_calls_total); under the stated OS law (only truncate touches contents; truncate keeps the "
@@ -443,10 +596,50 @@ META = {
     "note": ("Trusted/unmodelled: the kernel's chmod/chown/utime/truncate (parameters; the truncate contents law is "
              "compared with os.truncate on every run), StubSFTPServer/StubSFTPHandle routing chattr to set_file_attr, "
              "C33's wire theorems (imported). Times after a size change are not specified (truncate stamps mtime). "
-             "Float timestamps are whole seconds on the wire. The win32 branch is not modelled."),
+             "Float timestamps are whole seconds on the wire. The win32 branch is not modelled. Open-handle programs: "
+             "line buffering (bufsize=1) and flushes larger than one request are covered by the local-file oracle only; "
+             "reads/seeks mixed with writes are C27's subject."),
     "technique": "Lean 4 proof (composition with the C33 round-trip theorem, abstract OS with law hypotheses) + "
                  "recorded-OS correspondence + twin-file oracle through a real session",
 }
+
+
+def replay_handle_program(d):
+    """re-run an open-handle program (same mode, bufsize, op shapes; contents 'A'*n, writes 'b'*n) and compare with the
+    same program on a local file object"""
+    from pv import lib_sftploop as lib
+
+    root, twin_root = tempfile.mkdtemp(prefix="pv-c31-hsrv-"), tempfile.mkdtemp(prefix="pv-c31-htwin-")
+    try:
+        served, twin = os.path.join(root, "p"), os.path.join(twin_root, "p")
+        for p_ in (served, twin):
+            with open(p_, "wb") as f:
+                f.write(b"A" * d["initial_size"])
+            os.chmod(p_, 0o644)
+        lmode = {"r+": "r+b", "r+b": "r+b", "w": "wb", "w+": "w+b", "a": "ab", "ab": "ab", "a+": "a+b"}[d["open_mode"]]
+        with lib.Session(root=root) as s:
+            fh = s.client.open("/p", d["open_mode"], d["bufsize"])
+            g = open(twin, lmode)
+            for k, v in d["ops"]:
+                if k == "w":
+                    fh.write(b"b" * v), g.write(b"b" * v)
+                elif k == "t":
+                    fh.truncate(v), g.truncate(v)
+                elif k == "chmod":
+                    fh.chmod(v), os.chmod(twin, v)
+                elif k == "utime":
+                    fh.utime(tuple(v)), os.utime(twin, tuple(v))
+                else:
+                    fh.chown(*v), os.chown(twin, *v)
+            fh.close(), g.close()
+        got, want = snapshot(served, False), snapshot(twin, False)
+        k_ = first_diff(want, got)
+        print("served            %r\nlocal file object %r\n-> %s" % (show(got), show(want),
+                                                                      "FAILS (%s differs)" % k_ if k_ else "holds"))
+        return 1 if k_ else 0
+    finally:
+        shutil.rmtree(root, ignore_errors=True)
+        shutil.rmtree(twin_root, ignore_errors=True)
 
 
 def replay(data):
@@ -455,6 +648,8 @@ def replay(data):
     from pv import lib_sftploop as lib
 
     d = data["case"]
+    if "open_mode" in d:
+        return replay_handle_program(d)
     if "op" not in d or d["op"] == "combo":
         print("replay covers single client operations; re-run ./check C31 with VERIF_SEED=%s" % data.get("seed"))
         return 0
